@@ -343,6 +343,9 @@ func runSetCase(r *rand.Rand, c cfgSpec, nmsgs, ntopics, nparts int, wide bool) 
 	d := &setDriver{c: c, set: sarama.VerifC16NewSet(c.config()), keys: map[[2]int64]bool{}}
 	for i := 0; i < nmsgs; i++ {
 		topic, part := r.Intn(ntopics), int32(r.Intn(nparts))
+		if wide {
+			topic = i % ntopics
+		}
 		bb, _ := d.set.Counters()
 		pb, _, have := d.set.PartitionBytes(topicName(topic), part)
 		var target int
@@ -362,9 +365,12 @@ func runSetCase(r *rand.Rand, c cfgSpec, nmsgs, ntopics, nparts int, wide bool) 
 			target = overhead(c) + 4 + r.Intn(c.MaxMessageBytes/3+1)
 		}
 		m := msgOfSize(r, c, int64(i+1), topic, part, target)
-		if !isBatch(c.Version) && r.Intn(12) == 0 {
+		if !isBatch(c.Version) && r.Intn(12) == 0 && !wide {
 			m.HasHeaders = true
 			m.Headers = [][2]int{{3, 4}}
+		}
+		if wide {
+			m.Headers, m.HasHeaders = nil, false
 		}
 		if r.Intn(25) == 0 && m.Key != nil {
 			m.EncFail = true
@@ -392,7 +398,10 @@ func runSetCase(r *rand.Rand, c cfgSpec, nmsgs, ntopics, nparts int, wide bool) 
 		}
 		d.add(m)
 		rd := d.ready()
-		if (rd && r.Intn(3) == 0) || r.Intn(15) == 0 {
+		if wide && i == 15 {
+			d.build() // a request that still fits
+		}
+		if !wide && ((rd && r.Intn(3) == 0) || r.Intn(15) == 0) {
 			d.build()
 			d.roll()
 			d.ready()
@@ -823,7 +832,7 @@ func main() {
 	r := rand.New(rand.NewSource(*seed))
 	topicNames = []string{"t0", "t1", "t2"}
 	for i := 3; i < 70; i++ {
-		topicNames = append(topicNames, fmt.Sprintf("wide-topic-%03d-%s", i, strings.Repeat("x", 180)))
+		topicNames = append(topicNames, fmt.Sprintf("wide-topic-%03d-%s", i, strings.Repeat("x", 225)))
 	}
 	imports := "From SV Require Import C16.Model C16.Corr."
 	ws := &cf.Writer{Dir: *out, Prefix: "cases_set", Imports: imports, CaseType: "scase", MismatchFn: "mismatches_s", ShardSize: 60}
@@ -835,9 +844,12 @@ func main() {
 		c := genCfg(r, i%2 == 0)
 		nm, nt, np, wide := 8+r.Intn(25), 1+r.Intn(2), 1+r.Intn(3), false
 		if i%10 == 9 { // many partitions with long topic names: the wire size passes MaxRequestSize while the estimate does not
-			c.MaxRequestSize = int32(10240 + 3000 + r.Intn(3000))
-			c.MaxMessages, c.FlushMessages = 0, 0
-			nm, nt, np, wide = 60+r.Intn(60), 70, 1+r.Intn(2), true
+			c.MaxRequestSize = int32(10240 + 2600 + r.Intn(100))
+			if isBatch(c.Version) {
+				c.MaxRequestSize = int32(10240 + 6500 + r.Intn(100))
+			}
+			c.MaxMessages, c.FlushMessages, c.FlushBytes = 0, 0, 0
+			nm, nt, np, wide = 70+r.Intn(30), 70, 1, true
 		}
 		ops, mon := runSetCase(r, c, nm, nt, np, wide)
 		var it []string
